@@ -92,6 +92,9 @@ func (x *Exec) unsupportedf(format string, args ...interface{}) {
 }
 
 func (x *Exec) posOf(ins ssa.Instruction) string {
+	if ins == nil {
+		return ""
+	}
 	p := ins.Pos()
 	if !p.IsValid() {
 		return ""
